@@ -461,22 +461,22 @@ func RunParent(p *Prop, tier string, seed int64, exe string, onlyCase int) int {
 			"seed":        seed,
 			"level":       p.Level,
 			"coverage": map[string]interface{}{
-				"evaluations":         a.evals,
-				"distinct_nontrivial": len(a.keys),
-				"rule":                p.Rule,
-				"samples":             samples,
-				"cases":               a.cases,
-				"cases_planned":       total,
-				"events":              a.cnt,
-				"inconclusive":        incKeys,
-				"race_reports":        len(races) - nExt,
-				"external_race_reports": nExt,
+				"evaluations":             a.evals,
+				"distinct_nontrivial":     len(a.keys),
+				"rule":                    p.Rule,
+				"samples":                 samples,
+				"cases":                   a.cases,
+				"cases_planned":           total,
+				"events":                  a.cnt,
+				"inconclusive":            incKeys,
+				"race_reports":            len(races) - nExt,
+				"external_race_reports":   nExt,
 				"known_findings_observed": knownSeen,
-				"children":            n,
-				"child_crashes":       a.crashes,
-				"watchdog_hangs":      len(a.hangs),
-				"coverage_keys_sample": sampleKeys(a.keys, 40),
-				"verdict":             verdict,
+				"children":                n,
+				"child_crashes":           a.crashes,
+				"watchdog_hangs":          len(a.hangs),
+				"coverage_keys_sample":    sampleKeys(a.keys, 40),
+				"verdict":                 verdict,
 			},
 			"assumptions": p.Assumptions,
 			"wall_s":      time.Since(start).Seconds(),
